@@ -121,7 +121,8 @@ def build_request(i, m="GET", ver=11, conn="-", expect=False, framing=None, extr
             bad_txt = {"size-alpha": "zz\r\n", "size-empty": "\r\n\r\n", "size-overflow": "fffffffffffffffff\r\n",
                        "size-neg": "-1\r\n", "no-crlf-after-data": "2\r\nabXX", "lf-only": "2\nab\r\n",
                        "size-space-digit": "2 2\r\nabcd\r\n", "ext-cr": "2;a\rb\r\nab\r\n", "size-0x": "0x2\r\nab\r\n",
-                       "ext-lf": "2;name=a\nbcdef\r\nab\r\n", "ext-ctl": "2;name=a\x1fbcdef\r\nab\r\n",
+                       # (a complete chunked body follows the forbidden byte: a decoder that lets it through ends the body cleanly)
+                       "ext-lf": "2;name=a\nbcdef\r\nab\r\n0\r\n\r\n", "ext-ctl": "2;name=a\x1fbcdef\r\nab\r\n0\r\n\r\n",
                        "last-no-crlf": "0\r\nXY"}[cls]
             body_parts.append({"s": bad_txt, "bad": True})
         else:
